@@ -14,6 +14,16 @@ queue and that the base model leaves out (added for C08):
     the retransmission delay in `coap_retransmit`, the `is_ping_rst` case of the RST branch of `coap_dispatch`
                                                                                        src/coap_io.c, src/coap_net.c
 
+  * (round 4) a PIGGY-BACKED RESPONSE (an ACK with a response code and the request's token, event `rxAckP`): the
+    ACK branch of `coap_dispatch` (found by message id only), then `handle_response` - which does NOT cancel by
+    token for an ACK (`if (rcvd->type != COAP_MESSAGE_ACK) coap_cancel_all_messages(...)`), drops a duplicate
+    (`rcvd->mid == session->last_ack_mid`) and otherwise calls the response handler            src/coap_net.c
+  * (round 4) DTLS sessions (`LX.dtls`): every `con_active` update and every gate of the message layer is guarded
+    by `COAP_PROTO_NOT_RELIABLE(session->proto)` (`(p)==COAP_PROTO_UDP || (p)==COAP_PROTO_DTLS`, `Proto.notReliable`),
+    so what M says about a session holds for both datagram transports; the ONE place where the modelled code
+    tells them apart is `coap_session_disconnected_lkd`: `if (session->proto == COAP_PROTO_UDP) state =
+    ESTABLISHED else state = NONE` (`disconnectP`)                                              src/coap_session.c
+
 Everything else is the base model's functions, re-used as they are (`gate`, `waitAck`, `drain`, `connected`,
 `release`, `rxAck`, `rxBad`, `disconnect`).  `stepX_base` (Lemmas/MsgLayerX.lean) proves that with keepalive off
 the two models agree on every base event except that `rxNon` uses the pointer walk.  Not modelled: the RFC 8974
@@ -152,18 +162,34 @@ structure KA where
   lastPong : Nat := 0
   lastPingMid : Option Nat := none      -- none = COAP_INVALID_MID
   txMid : Nat := 0
+  lastAckMid : Option Nat := none       -- session->last_ack_mid (none = COAP_INVALID_MID): duplicate check of handle_response
   deriving Repr, DecidableEq
 
-/-- the message layer, `context->ping_timeout` (seconds), the byte the PRNG hands out next, the keepalive fields -/
+/-- `coap_proto_t` of a datagram session -/
+inductive Proto where
+  | udp | dtls
+  deriving Repr, DecidableEq
+
+/-- `COAP_PROTO_NOT_RELIABLE(p)` = `((p)==COAP_PROTO_UDP || (p)==COAP_PROTO_DTLS)`: the guard of `con_active++` in
+`coap_send_pdu`, of the NSTART test / `con_active++` / `coap_wait_ack` in the loop of `coap_session_connected`, of
+the re-count in `coap_retransmit` and of the duplicate-id test of `coap_session_delay_pdu` -/
+def Proto.notReliable : Proto → Bool
+  | .udp => true
+  | .dtls => true
+
+/-- the message layer, `context->ping_timeout` (seconds), the byte the PRNG hands out next, the keepalive fields,
+and per session whether `session->proto == COAP_PROTO_DTLS` (default: UDP) -/
 structure LX where
   l : L
   pingTimeout : Nat := 0
   prng : Nat := 0
   ka : List KA := []
+  dtls : List Bool := []
   deriving Repr, DecidableEq
 
 def LX.getK (lx : LX) (s : Nat) : KA := lx.ka.getD s {}
 def LX.setK (lx : LX) (s : Nat) (k : KA) : LX := { lx with ka := lx.ka.set s k }
+def LX.proto (lx : LX) (s : Nat) : Proto := if lx.dtls.getD s false then .dtls else .udp
 
 /-- `coap_netif_dgrm_write` stamps `session->last_rx_tx`: every session that transmitted since the output list had
 `old` entries (all transmissions of one step happen at the same `now`) -/
@@ -252,11 +278,31 @@ def rxRstX (lx : LX) (s mid : Nat) : LX :=
     | none => lx.lift (l.emit (.nack l.now s .rst mid false))
   else lx.lift (rxRst lx.l s mid)
 
+/-! ### a piggy-backed response; the DTLS branch of a session failure -/
+
+/-- an ACK carrying a response (code 2.05, message id `mid`, some token) arrives: the ACK branch of `coap_dispatch`
+looks the message id up in the send queue and frees the slot of THAT message (`rxAck`); `handle_response` does not
+look at the token of an ACK (no `coap_cancel_all_messages`), returns at once for a duplicate (`dup`:
+`rcvd->mid == session->last_ack_mid`), otherwise calls the response handler -/
+def rxAckP (l : L) (s mid : Nat) (dup : Bool) : L :=
+  let l := rxAck l s mid
+  if dup then l else l.emit (.rsp l.now s mid)
+
+/-- `coap_session_disconnected_lkd(session, COAP_NACK_NOT_DELIVERABLE)`: `if (session->proto == COAP_PROTO_UDP)
+session->state = COAP_SESSION_STATE_ESTABLISHED; else session->state = COAP_SESSION_STATE_NONE;` - nothing between
+that assignment and the end of the function reads the state -/
+def disconnectP (p : Proto) (l : L) (s : Nat) : L :=
+  let l := disconnect l s
+  match p with
+  | .udp => l
+  | .dtls => l.setS s { (l.getS s) with est := false }
+
 inductive EvX where
   | base (e : Ev)
   | submitT (s : Nat) (con : Bool) (mid r tok : Nat)
   | icmp (s : Nat)
   | keepalive (secs : Nat)
+  | rxAckP (s mid tok : Nat)
   deriving Repr, DecidableEq
 
 def stepX (lx : LX) : EvX → LX
@@ -274,14 +320,23 @@ def stepX (lx : LX) : EvX → LX
     if (lx.l.getS s).sockOpen then afterRxX ((lx.read s).lift (rxBad lx.l s mid)) else lx
   | .base (.hold s) => lx.lift (step lx.l (.hold s))
   | .base (.connect s) => lx.lift (connected lx.l s)
-  | .base (.disconnect s) => if (lx.l.getS s).sockOpen then lx.lift (disconnect lx.l s) else lx
+  | .base (.disconnect s) => if (lx.l.getS s).sockOpen then lx.lift (disconnectP (lx.proto s) lx.l s) else lx
   | .icmp s => if (lx.l.getS s).sockOpen then afterRxX (lx.lift (icmp lx.l s)) else lx
   | .keepalive secs => { lx with pingTimeout := secs }
+  | .rxAckP s mid _ =>
+    if (lx.l.getS s).sockOpen then
+      let lx1 := (lx.read s).lift (rxAckP lx.l s mid (decide ((lx.getK s).lastAckMid = some mid)))
+      afterRxX (lx1.setK s { (lx1.getK s) with lastAckMid := some mid })
+    else lx
 
 def runX (lx : LX) (evs : List EvX) : LX := evs.foldl stepX lx
 
 /-- all sessions are created at `now` (`coap_session_check_connect`: `last_rx_tx = now`) -/
 def initX (now : Nat) (sess : List Sess) : LX :=
   { l := init now sess, ka := sess.map fun _ => { lastRxTx := now } }
+
+/-- the same with the transport of every session given (`true` = DTLS) -/
+def initXP (now : Nat) (sess : List Sess) (dtls : List Bool) : LX :=
+  { initX now sess with dtls := dtls }
 
 end Coap.MsgX
